@@ -1293,6 +1293,11 @@ func (d *dealer) syncRemoveSession(sess *wamp.Session) []*wamp.Publish {
 		if errArgs == nil {
 			errArgs = wamp.List{"callee gone"}
 		}
+		// The call may already have been canceled with mode "kill" and be
+		// waiting for the callee's response, which will now never come. Clear
+		// the flag so that the cancel below completes the call and the caller
+		// gets its error.
+		invk.canceled = false
 		// Use CancelModeSkip so as not to send an INTERRUPT to a callee that
 		// is no longer there.
 		d.syncCancel(caller, &wamp.Cancel{Request: invk.callID.request},
